@@ -390,7 +390,7 @@ def cache_replay(ctx, check_order=False):
                 e.arg(0), '_find_files') and any(
                     op == 'Eq' and (has(l, 'FindResult', member) or
                                     has(r_, 'FindResult', member))
-                    for op, l, r_ in F.guard_compares(e.call, e.fn))
+                    for op, l, r_ in F.guard_compares(e.call, e.fn, e.bind))
                 for e in apps)
         ok = bool(adds)
         for e in adds:
@@ -539,7 +539,7 @@ def result_lattice(ctx):
     for e in aps:
         if flag_form(e):
             continue
-        cmp_ = F.guard_compares(e.call, e.fn)
+        cmp_ = F.guard_compares(e.call, e.fn, e.bind)
         ok = ok and any(op == 'Eq' and (
             has(l, 'FindResult', 'exclude_recursive') and has_call(
                 r_, 'match') or has(r_, 'FindResult', 'exclude_recursive')
@@ -554,7 +554,7 @@ def result_lattice(ctx):
     if keeps and not aps:
         ok = True
         for e in keeps:
-            cmp_ = F.guard_compares(e.call, e.fn)
+            cmp_ = F.guard_compares(e.call, e.fn, e.bind)
             ok = ok and any(op == 'NotEq' and (
                 has(l, 'FindResult', 'exclude_recursive') and has_call(
                     r_, 'match') or has(r_, 'FindResult',
@@ -576,7 +576,7 @@ def result_lattice(ctx):
     def eq_member(e, member):
         return any(op == 'Eq' and (has(l, 'FindResult', member) or
                                    has(r_, 'FindResult', member))
-                   for op, l, r_ in F.guard_compares(e.call, e.fn))
+                   for op, l, r_ in F.guard_compares(e.call, e.fn, e.bind))
     ok = bool(walk_found) and all(eq_member(e, 'include')
                                   for e in walk_found) and \
         bool(walk_extra) and all(eq_member(e, 'not_now') and
@@ -589,11 +589,22 @@ def result_lattice(ctx):
     # FileFilter._match_globs: exclude first, then include, then extra
     mg = F.fn(FIND + 'FileFilter._match_globs')
     by = {}
+    def arms(v, c, d=0):
+        """(value, control) of every arm of a returned conditional
+        expression (through a single-definition local)."""
+        if isinstance(v, ast.IfExp) and d < 3:
+            c2 = c | F.atoms(v.test, mg)
+            for nm in ast.walk(v.test):
+                if isinstance(nm, ast.Name):
+                    for dn in F._def_sites(nm.id, mg):
+                        c2 = c2 | F.atoms(dn.value, mg)
+            return arms(v.body, c2, d + 1) + arms(v.orelse, c2, d + 1)
+        return [(v, c)]
     for r in Q.returns(mg.node):
-        c = F.control(r, mg)
-        for a in F.atoms(r.value, mg):
-            if a.startswith('FindResult.'):
-                by.setdefault(a.split('.')[1], []).append(c)
+        for v_, c in arms(r.value, F.control(r, mg)):
+            for a in F.atoms(v_, mg):
+                if a.startswith('FindResult.'):
+                    by.setdefault(a.split('.')[1], []).append(c)
     EX, IN, XT = ('exclude', 'match()'), ('include', 'match()'), \
         ('extra', 'match()')
     ok = any(has(c, *EX) and not has(c, *IN) and not has(c, *XT)
